@@ -119,19 +119,28 @@ pub fn append_rule(rule: Arc<Rule>) -> bool {
         .entry(rule.resource.clone())
         .or_default()
         .insert(Arc::clone(&rule));
-    let mut controller_map = CONTROLLER_MAP.write().unwrap();
-    let tcs_of_res = controller_map.entry(rule.resource.clone()).or_default();
     // an equal rule (whatever its id) is already enforced, nothing to build
-    if !tcs_of_res.iter().any(|tc| tc.rule() == &rule) {
+    let already_enforced = CONTROLLER_MAP
+        .read()
+        .unwrap()
+        .get(&rule.resource)
+        .map_or(false, |tcs| tcs.iter().any(|tc| tc.rule() == &rule));
+    if !already_enforced {
         let mut rule_set = HashSet::with_capacity(1);
         rule_set.insert(Arc::clone(&rule));
-        // the controllers already enforced stay in place, so none of them hands over its metric
+        // The controller generator runs while `CONTROLLER_MAP` is not locked (a custom generator may call
+        // read-only functions of this manager); `RULE_MAP`, held throughout, serialises the updates.
+        // The controllers already enforced stay in place, so none of them hands over its metric.
         let mut new_tcs =
             build_resource_traffic_shaping_controller(&rule.resource, &rule_set, &mut Vec::new());
-        tcs_of_res.append(&mut new_tcs);
-    }
-    if tcs_of_res.is_empty() {
-        controller_map.remove(&rule.resource);
+        if !new_tcs.is_empty() {
+            CONTROLLER_MAP
+                .write()
+                .unwrap()
+                .entry(rule.resource.clone())
+                .or_default()
+                .append(&mut new_tcs);
+        }
     }
     true
 }
@@ -175,7 +184,10 @@ pub fn load_rules(rules: Vec<Arc<Rule>>) -> bool {
     }
 
     let start = utils::curr_time_nanos();
-    let mut controller_map = CONTROLLER_MAP.write().unwrap();
+    // The controller generators run on a copy of the current lists while `CONTROLLER_MAP` is not locked
+    // (a custom generator may call read-only functions of this manager, and entries keep being checked
+    // against the current controllers); `RULE_MAP`, held throughout, serialises the updates.
+    let mut old_controller_map: ControllerMap = CONTROLLER_MAP.read().unwrap().clone();
     let mut valid_controller_map = HashMap::with_capacity(valid_rules_map.len());
 
     // build controller_map according to valid rules
@@ -184,16 +196,17 @@ pub fn load_rules(rules: Vec<Arc<Rule>>) -> bool {
         let new_tcs_of_res = build_resource_traffic_shaping_controller(
             res,
             rules,
-            controller_map.get_mut(res).unwrap_or(&mut placeholder),
+            old_controller_map
+                .get_mut(res)
+                .unwrap_or(&mut placeholder),
         );
         if !new_tcs_of_res.is_empty() {
             valid_controller_map.insert(res.clone(), new_tcs_of_res);
         }
     }
-    *controller_map = valid_controller_map;
+    *CONTROLLER_MAP.write().unwrap() = valid_controller_map;
     *global_rule_map = rule_map;
     drop(global_rule_map);
-    drop(controller_map);
     logging::debug!(
         "[HotSpot load_rules] Time statistic(ns) for updating hotspot param flow rule, time cost {}",
         utils::curr_time_nanos() - start
@@ -213,11 +226,10 @@ pub fn load_rules_of_resource(res: &String, rules: Vec<Arc<Rule>>) -> Result<boo
     }
     let rules: HashSet<_> = rules.into_iter().collect();
     let mut global_rule_map = RULE_MAP.lock().unwrap();
-    let mut global_controller_map = CONTROLLER_MAP.write().unwrap();
     // clear resource rules
     if rules.is_empty() {
         global_rule_map.remove(res);
-        global_controller_map.remove(res);
+        CONTROLLER_MAP.write().unwrap().remove(res);
         logging::info!("[HotSpot] clear resource level rules, resource {}", res);
         return Ok(true);
     }
@@ -242,18 +254,26 @@ pub fn load_rules_of_resource(res: &String, rules: Vec<Arc<Rule>>) -> Result<boo
     }
     // the `res` related rules changes, have to update
     let start = utils::curr_time_nanos();
-    let mut placeholder = Vec::new();
-    let old_res_tcs = global_controller_map
-        .get_mut(res)
-        .unwrap_or(&mut placeholder);
+    // The controller generators run on a copy of the current list while `CONTROLLER_MAP` is not locked
+    // (see `load_rules`); `RULE_MAP`, held throughout, serialises the updates.
+    let mut old_res_tcs = CONTROLLER_MAP
+        .read()
+        .unwrap()
+        .get(res)
+        .cloned()
+        .unwrap_or_default();
 
     let valid_res_rules_string = format!("{:?}", &valid_res_rules);
-    let new_res_tcs = build_resource_traffic_shaping_controller(res, &valid_res_rules, old_res_tcs);
+    let new_res_tcs =
+        build_resource_traffic_shaping_controller(res, &valid_res_rules, &mut old_res_tcs);
 
     if new_res_tcs.is_empty() {
-        global_controller_map.remove(res);
+        CONTROLLER_MAP.write().unwrap().remove(res);
     } else {
-        global_controller_map.insert(res.clone(), new_res_tcs);
+        CONTROLLER_MAP
+            .write()
+            .unwrap()
+            .insert(res.clone(), new_res_tcs);
     }
 
     global_rule_map.insert(res.clone(), rules);
